@@ -2743,6 +2743,12 @@ def allclose_units(actual, desired, rtol=1e-7, atol=0, **kwargs):
     act = unyt_array(actual)
     des = unyt_array(desired)
 
+    # a bare atol is documented to be in the units of ``desired``
+    if not isinstance(atol, unyt_array):
+        at = unyt_quantity(atol, des.units)
+    else:
+        at = atol
+
     try:
         des = des.in_units(act.units)
     except (UnitOperationError, UnitConversionError):
@@ -2752,13 +2758,10 @@ def allclose_units(actual, desired, rtol=1e-7, atol=0, **kwargs):
     if not rt.units.is_dimensionless:
         raise RuntimeError(f"Units of rtol ({rt.units}) are not dimensionless")
 
-    if not isinstance(atol, unyt_array):
-        at = unyt_quantity(atol, des.units)
-    else:
-        at = atol
-
     try:
-        at = at.in_units(act.units)
+        # atol is a difference: convert its scale, never apply an offset
+        at = at.value * at.units.get_conversion_factor(act.units)[0]
+        at = unyt_array(at, act.units)
     except (UnitOperationError, UnitConversionError):
         return False
 
